@@ -14,7 +14,7 @@ from cpverif import bootstrap
 from cpverif import gen_settings as G
 from cpverif.oracles import rng_from
 from cpverif.runner import subcheck
-from props.c12 import CODES, MAP_SPECS, _registered_codes, build_map, raw_features, st_map
+from props.c12 import CLASS_NAMES, CODES, MAP_SPECS, _registered_codes, build_map, check_registry, raw_features, st_map
 
 EXCLUDE_KNOWN = set()
 
@@ -174,7 +174,8 @@ def st_fl_case(draw):
 def featurelist_roundtrip(case, ctx):
     from ciderpress.dft.transform_data import FeatureList
 
-    assert set(CODES) == _registered_codes(), "generator out of date with ALL_CLASSES"
+    assert _registered_codes() <= set(CODES), "generator out of date with ALL_CLASSES: %s" % sorted(_registered_codes() - set(CODES))
+    check_registry(ctx)
     specs = case["maps"]
     maps = [build_map_typed(s) for s in specs]
     for s in specs:
@@ -201,12 +202,14 @@ def st_enum_case(draw):
 def featurelist_all_classes(case, ctx):
     from ciderpress.dft import transform_data as td
 
-    assert set(CODES) == _registered_codes(), "generator out of date with ALL_CLASSES"
+    assert _registered_codes() <= set(CODES), "generator out of date with ALL_CLASSES: %s" % sorted(_registered_codes() - set(CODES))
+    check_registry(ctx)
     rng = rng_from(case["seed"])
     n0 = 6
     specs = []
+    known = {v: k for k, v in CLASS_NAMES.items()}
     for cls in td.ALL_CLASSES:
-        code = "Omega" if cls.__name__ == "OmegaMap" else cls.code
+        code = known[cls.__name__]
         s = MAP_SPECS[code]
         idx = rng.permutation(n0)[: len(s["idx"])]
         par = {p: (float(rng.uniform(-1, 1)) if p == "center" else float(np.exp(rng.uniform(np.log(0.1), np.log(5))))) for p in s["par"]}
